@@ -123,12 +123,13 @@ def make_config(scheme, c, dt, sys_):
     meth = {"pc_taylor": EvolveMethod.prop_and_compress, "pc_rk4": EvolveMethod.prop_and_compress_tdrk4, "pc_rk": EvolveMethod.prop_and_compress_tdrk,
             "ps": EvolveMethod.tdvp_ps, "ps2": EvolveMethod.tdvp_ps2, "vmf": EvolveMethod.tdvp_vmf, "mu_vmf": EvolveMethod.tdvp_mu_vmf,
             "cmf": EvolveMethod.tdvp_mu_cmf}[scheme]
-    kw = dict(ivp_rtol=1e-9, ivp_atol=1e-11, ivp_solver=c["solver"], force_ovlp=c["force_ovlp"])
+    # guess_dt must share the phase of dt (EvolveConfig.check_valid_dt raises otherwise): a documented precondition
+    kw = dict(ivp_rtol=1e-9, ivp_atol=1e-11, ivp_solver=c["solver"], force_ovlp=c["force_ovlp"], guess_dt=dt)
     adaptive = bool(c["adaptive"]) and scheme in ("pc_taylor", "pc_rk", "ps", "ps2", "cmf") and scheme == c["scheme"]
     if adaptive:
         # a guess larger than the step (so that the first trial is the whole step and may be rejected), same phase as dt
         # tight tolerance for the propagate-and-compress controllers so that the first trial (the whole step) IS rejected
-        kw.update(adaptive=True, guess_dt=dt * 1.0, adaptive_rtol={"cmf": 1e-5, "ps": 1e-6, "ps2": 1e-6}.get(scheme, 1e-8))
+        kw.update(adaptive=True, guess_dt=dt * 1.0, adaptive_rtol={"cmf": 1e-3, "ps": 1e-6, "ps2": 1e-6}.get(scheme, 1e-8))
     if scheme == "pc_rk":
         kw["rk_solver"] = c["rk"] if scheme == c["scheme"] else "C_RK4"
     cfg = EvolveConfig(meth, **kw)
@@ -295,6 +296,6 @@ def error_bound(scheme, c, tau_total, td, form, full_bond, ncalls=1):
             base *= 10
         return base * (10 if td else 1)
     if adaptive:
-        return 5e-3 if scheme == "cmf" else 1e-5
+        return 3e-2 if scheme == "cmf" else 1e-5
     b = 1.5 * tau_total ** (p + 1)
     return max(b, 5e-6 if scheme == "cmf" else 1e-8)
